@@ -370,7 +370,50 @@ def execute(run):
                     'u=%r: %s before sampling from the model, %s after'
                     % (run['points'][0], before[1] if before[0] == 'ok' else outcome_class(before),
                        after[1] if after[0] == 'ok' else outcome_class(after)), **cond)
+    # ... and "(model, u)" includes the model as exported and read back: the copy has the same
+    # trees, so the same sum of log densities
+    from copulas.multivariate import VineCopula
+    with sterile(4), Poison(p0, seed=run['pseed'] + 5):
+        back = outcome(lambda: VineCopula.from_dict(vine.to_dict()))
+        again = outcome(back[1].get_likelihood, u0.copy()) if back[0] == 'ok' else None
+        twice = outcome(back[1].get_likelihood, u0.copy()) if back[0] == 'ok' else None
+    if again is not None:
+        ctx.stats['likelihood_of_exported_model'] += 1
+        for other, what in ((again, 'once'), (twice, 'a second time')):
+            if outcome_class(other) != outcome_class(after) or (
+                    after[0] == 'ok' and not same(float(other[1]), float(after[1]))):
+                ctx.violate('b_likelihood_survives_export', SUBJECT_LIK,
+                            'u=%r: %s on the fitted vine, %s on from_dict(to_dict(vine)) '
+                            'evaluated %s'
+                            % (run['points'][0],
+                               after[1] if after[0] == 'ok' else outcome_class(after),
+                               other[1] if other[0] == 'ok' else outcome_class(other), what),
+                            **cond)
+                break
+    # the marginals of a vine are kernel estimates sampled through their numerical inverse
+    for j, uni in enumerate(getattr(vine, 'unis', []) or []):
+        if type(uni).__name__ == 'GaussianKDE' and not gmv_constant(uni):
+            ctx.stats['kde_inverse_checks'] += 1
+            if not marginal_consistent(uni):
+                ctx.violate('d_marginal_inverse_inverts_its_cdf', SUBJECT_SAMPLE,
+                            'column %d: cdf(percent_point(p)) != p for the fitted kernel '
+                            'estimate (|p - cdf(ppf(p))| > 1e-6 on a probability grid)' % j,
+                            **cond)
+                break
     st = '|'.join([run['type'], str(d), str(run['trunc']), ''.join(fams)])
     ctx.states.add(st)
     ctx.shape.append(st)
     return ctx.result()
+
+
+def gmv_constant(uni):
+    return getattr(uni, '_constant_value', None) is not None
+
+
+def marginal_consistent(uni):
+    p = np.linspace(0.02, 0.98, 25)
+    try:
+        back = np.asarray(uni.cdf(np.asarray(uni.percent_point(p), dtype=float)), dtype=float)
+    except Exception:
+        return False
+    return bool(np.all(np.isfinite(back)) and np.max(np.abs(back - p)) <= 1e-6)
